@@ -464,8 +464,8 @@ example : ∃ m, ∀ p, 1 < p → p ≤ 3 → InInterval setupK "k" 2 m p := by
   Helper files: Proofs/TxProgBase (abstraction `absTx`, relation `Sim`), TxProgSim/SimA/SimB/SimC (one lemma per
   program counter), TxProgRefine, TxProgStrong/Local/Guard/Shared/Inv (the inductive invariant `Strong`),
   TxProgCS, TxProgReach.
-  Not in the program model: gc / flush / SCAN mini transactions and `store.clear` (they are steps of the
-  environment in the replay check, and protocol-level only in the proofs). -/
+  Also in the program model: the one-record mini transactions of store.go / key.go (`gcRecord`, `flushRecord`, the
+  visit of Keys / Scan; pcs g1 … g13).  Not in it: `store.clear` (protocol level only). -/
 
 section ProgramLevel
 open NodisVerif.Proofs.TxProg
@@ -583,6 +583,32 @@ theorem newKey_fills_in_under_write_lock {c : TxProg.Cfg} (hr : ProgReachable c)
     owns (c.sh.mu (c.loc t).m) t .w ∧ ∀ u, u ≠ t → ∀ g' ∈ holdsOf (c.loc u), g'.rid ≠ (c.loc t).m := by
   obtain ⟨p, _, hst⟩ := hr.strong
   exact newKey_writes_locked hst hpc
+
+/-- the eviction pass (`gcRecord`, pcs g1 … g13 of the program model; `flushRecord` and the visit of Keys / Scan are
+    the same code without the unlink): when it unlinks a dead key (pc g8) the record it validated is still the one
+    in the index, the thread is the writer of the record's mutex and inside `store.mu` — so the `unlink` it
+    reports is the unlink of exactly that record, and no command holds the record -/
+theorem gc_unlinks_the_indexed_record {c : TxProg.Cfg} (hr : ProgReachable c) {t : TxProg.Tid}
+    (hpc : (c.loc t).pc = .g8) :
+    assoc c.sh.index (c.loc t).key = some (c.loc t).m ∧ owns (c.sh.mu (c.loc t).m) t .w ∧
+    c.sh.smu.writer = some t ∧ ∀ u, u ≠ t → ∀ g' ∈ holdsOf (c.loc u), g'.rid ≠ (c.loc t).m := by
+  obtain ⟨p, _, hst⟩ := hr.strong
+  have hf := (hst.sim.thr t).facts
+  simp only [Facts, hpc] at hf
+  have hh : (⟨(c.loc t).m, (c.loc t).key, .w, (c.loc t).okcur⟩ : Hold) ∈ holdsOf (c.loc t) := by simp [holdsOf, hpc]
+  exact ⟨(hst.sf t).gidx (Or.inr (Or.inr hpc)) hf.2, (hst.sim.thr t).own _ hh, (hst.sf t).w (by simp [hpc, inW]),
+    fun u hu g' hg' => prog_mutex hst.sim hu hh rfl hg'⟩
+
+/-- hypotheses are satisfiable, and a stale record is left alone: the eviction pass unlinks the dead key "k"; a second
+    mini transaction on the same record, taken from an older snapshot, fails its validation and commits nothing -/
+example : (TxProg.run {} schedGc).2 =
+    [.begin 1, .look 1 "k" none, .claim 1 "k" 10 .w, .look 1 "k" (some 10), .publish 1 "k" 10, .commit 1,
+     .unlock 1 10, .fin 1,
+     .begin 3, .wait 3 "k" 10 .w, .lock 3 "k" 10 .w, .valid 3 "k" 10 true, .unlink 3 "k" 10, .commit 3,
+     .unlock 3 10, .fin 3,
+     .begin 4, .wait 4 "k" 10 .w, .lock 4 "k" 10 .w, .valid 4 "k" 10 false, .unlock 4 10, .fin 4] := by decide
+
+example : ((TxProg.run {} (schedGc.take 28)).1.loc 3).pc = .g8 := by decide
 
 /-- hypotheses are satisfiable: a schedule in which thread 1 creates "k" through a placeholder while thread 2's
     read waits for the placeholder, is granted the lock after thread 1's commit and validates; the emitted trace -/
